@@ -82,6 +82,12 @@ CHECKS["C17"] = dict(level="model_checking", engine="E1-sequences",
    note="Trusted: model = the documented rule (latest time wins, tombstone beats values, earliest tombstone kept, RemoveTombstones drops tombstones strictly older than the cutoff). Equal times are excluded (order dependent by design).",
    ref="§5 C17")
 
+CHECKS["C18"] = dict(level="exploration", engine="E4-domain",
+   technique="exhaustive enumeration over plaintext lengths x passphrases x every single-bit flip / truncation / extension / wrong passphrase of the ciphertext (current and legacy format), plus end-to-end runs through kv.Open on the fake store",
+   text="For every plaintext length 0..130 (quick) / 0..300 (thorough), crossing the 32/64-byte block boundaries of the legacy box, and three passphrases: decrypt(encrypt(p)) = p; equal plaintext gives equal ciphertext; EVERY single-bit flip, EVERY truncation, three 1-byte extensions and both other passphrases are rejected with an error; ciphertext produced in the earlier hand-rolled format (hook H7 exposes the repo's own legacy seal) decrypts to the original and every bit flip of it is rejected. End to end (1, 5, 40 entries; branch factor 4): no 4-byte window of any key or value occurs in any stored node object, a second handle reads everything back, adding one entry re-writes only the path to it and never an existing name (store immutability invariant), a different passphrase reads nothing, and with every stored node modified no entry is returned.",
+   note="Decides the observable statements of the property (no plaintext bytes, authenticated, deterministic, legacy readable), not cryptographic strength. Lengths above the bound and multi-bit corruptions are not enumerated.",
+   ref="§5 C18")
+
 NOT_YET = {}
 
 props = [json.loads(l) for l in open("properties.jsonl")]
